@@ -86,6 +86,9 @@ func C01(run *ev.Run, tier string) map[string]interface{} {
 	schemas := []schema{
 		{"H", drv.TableCfg{Hash: "h", HashT: "S", Billing: "PAY_PER_REQUEST"}, hKeys},
 		{"HR", drv.TableCfg{Hash: "h", HashT: "S", Range: "r", RangeT: "S", Billing: "PAY_PER_REQUEST"}, hrKeys},
+		// number keys that are neighbours beyond float64's 53 bits (64-bit ids): distinct keys, distinct items
+		{"HR(S,N)", drv.TableCfg{Hash: "h", HashT: "S", Range: "r", RangeT: "N", Billing: "PAY_PER_REQUEST"},
+			[]val.Item{{"h": val.S("a"), "r": val.N("1234567890123456789")}, {"h": val.S("a"), "r": val.N("1234567890123456788")}}},
 	}
 	total, per := exploreBoth(run, func(newImpl func() drv.Driver, dn string) []mc.Sys {
 		var out []mc.Sys
@@ -111,7 +114,7 @@ func C01(run *ev.Run, tier string) map[string]interface{} {
 	})
 	cov := total.Coverage()
 	cov["per_system"] = per
-	cov["alphabet"] = "Get, Put(full|shrinking|bare|nested values), Del(ALL_OLD), Upd(SET a | SET b = N 7 | SET b = S 7 | ADD c (c<2) | REMOVE a) and rejected writes (update whose operand is absent, false conditions on Put/Upd/Del; thorough: a syntax error) on every key; schemas H(h:S) and HR(h:S,r:S); both SDK adapters"
+	cov["alphabet"] = "Get, Put(full|shrinking|bare|nested values), Del(ALL_OLD), Upd(SET a | SET b = N 7 | SET b = S 7 | ADD c (c<2) | REMOVE a) and rejected writes (update whose operand is absent, false conditions on Put/Upd/Del; thorough: a syntax error) on every key; schemas H(h:S), HR(h:S,r:S) and HR(h:S,r:N) with number keys that are neighbours beyond 2^53; both SDK adapters"
 	cov["oracle"] = "reference map key->item in lock-step; after every transition: DescribeTable, GetItem of every key, Scan, Query of every partition in both directions"
 	return cov
 }
